@@ -25,7 +25,7 @@ def models(quick):
                          invariants=INVS + ("BallExact",)),
                 ModelRun("C03_two_hash2", letters=[0, 1], maxlen=2, maxn=1, maxn2=2, ks=[2], engines=["hash"],
                          invariants=INVS + ("BallExact",)),
-                ModelRun("C03_hist", letters=[0, 1], maxlen=1, maxn=2, maxn2=2, ks=[1], engines=["symdel", "hash"],
+                ModelRun("C03_hist", letters=[0, 1], maxlen=1, maxn=2, maxn2=2, ks=[1], engines=["symdel", "hash"], modes=["lev", "hamming"],
                          maxlookups=2, invariants=INVS, properties=("IndexStableA",))]
     return [ModelRun("C03_two", letters=[0, 1], maxlen=3, maxn=2, maxn2=2, ks=[1, 2], engines=["symdel", "hash"],
                      invariants=INVS),
@@ -34,11 +34,21 @@ def models(quick):
             # (hash_based enumerates the 20-letter edit ball on the real code: radius 3 costs seconds per query, so k <= 2 there)
             ModelRun("C03_two3", letters=[0, 1, 2], maxlen=2, maxn=2, maxn2=2, ks=[1, 2, 3], engines=["symdel"], invariants=INVS),
             ModelRun("C03_two3h", letters=[0, 1, 2], maxlen=2, maxn=2, maxn2=1, ks=[1, 2], engines=["hash"], invariants=INVS + ("BallExact",)),
-            ModelRun("C03_hist", letters=[0, 1], maxlen=2, maxn=2, maxn2=1, ks=[1, 2], engines=["symdel", "hash"],
+            ModelRun("C03_hist", letters=[0, 1], maxlen=2, maxn=2, maxn2=1, ks=[1, 2], engines=["symdel", "hash"], modes=["lev", "hamming"],
                      maxlookups=2, invariants=INVS, properties=("IndexStableA",))]
 
 
-def replay_histories(ctx, res, letters, max_groups=None):
+def lookup_kw(inp):
+    """keyword arguments of one lookup: the distance mode (and, in custom mode, the distance function and its radius)
+    belongs to the lookup, not to the database object"""
+    if inp["mode"] == "hamming":
+        return dict(custom_distance="hamming")
+    if inp["mode"] == "custom":
+        return dict(custom_distance=nc.cd_function(inp["cd"]), max_custom_distance=float("inf") if inp["maxc"] >= nc.INF else inp["maxc"] / 4.0)
+    return {}
+
+
+def replay_histories(ctx, res, letters, max_groups=None, classify_fn=None):
     """spec -> code for database histories: the successors of a built database in the state graph are lookups with
     other query lists; all emitted behaviours sharing (engine, k, reference) are replayed against ONE real database
     object, each query list twice, and the object's index is compared before/after every lookup."""
@@ -48,15 +58,21 @@ def replay_histories(ctx, res, letters, max_groups=None):
         if isinstance(doc, dict) and "inp" in doc and doc["inp"]["two"]:
             i = doc["inp"]
             # SymdelDB fixes max_edits at build time; LookupDB takes it per lookup: one object serves every radius
-            groups.setdefault((i["engine"], i["k"] if i["engine"] == "symdel" else 0, i["mode"], str(i["seqs"])), {})[str(i["seqs2"]) + "/" + str(i["k"])] = doc
+            # ... and the distance mode is an argument of every lookup on both objects: one object serves Levenshtein and Hamming lookups
+            mgrp = i["mode"] if i["mode"] == "custom" else "lev+hamming"
+            groups.setdefault((i["engine"], i["k"] if i["engine"] == "symdel" else 0, mgrp, str(i["seqs"])), {})[
+                str(i["seqs2"]) + "/" + str(i["k"]) + "/" + i["mode"] + "/" + str(i.get("cd")) + "/" + str(i.get("maxc"))] = doc
     items = list(groups.items())
     if max_groups is not None and len(items) > max_groups:
         ctx.note(f"{res.cfg}: {len(items)} database histories, seeded sample of {max_groups} replayed")
         items = ctx.rng.sample(items, max_groups)
-    for (eng, k, mode, _), docs in items:
-        docs = sorted(docs.values(), key=lambda d: (str(d["inp"]["seqs2"]), d["inp"]["k"]))
-        if len(docs) > 24:
-            docs = docs[:12] + docs[-12:]
+    for (eng, k, _mgrp, _), docs in items:
+        # the same query list under the other mode / radius is adjacent in the order: caches keyed by the query alone show up
+        # (custom mode: the same query under another radius pair / distance function; the reversed second half of the order
+        #  asks with the radii going DOWN again)
+        docs = sorted(docs.values(), key=lambda d: (str(d["inp"]["seqs2"]), d["inp"]["k"], d["inp"]["mode"], str(d["inp"].get("cd")), d["inp"].get("maxc", 0)))
+        if len(docs) > 48:
+            docs = docs[:24] + docs[-24:]
         ref = [nc.dec(x, letters) for x in docs[0]["inp"]["seqs"]]
         db = nn.SymdelDB(ref, k) if eng == "symdel" else nn.LookupDB(ref)
         ks_seen = set()
@@ -65,28 +81,29 @@ def replay_histories(ctx, res, letters, max_groups=None):
         for doc in order:
             qs = [nc.dec(x, letters) for x in doc["inp"]["seqs2"]]
             before = nc._snapshot(db)
-            hist.append([qs, doc["inp"]["k"]])
+            mode = doc["inp"]["mode"]
+            hist.append([qs, doc["inp"]["k"], mode] + ([doc["inp"]["cd"], doc["inp"]["maxc"]] if mode == "custom" else []))
             try:
                 kq = doc["inp"]["k"]
                 ks_seen.add(kq)
-                mkw = dict(custom_distance="hamming") if mode == "hamming" else {}
+                mkw = lookup_kw(doc["inp"])
                 ret = db.lookup(qs, **mkw) if eng == "symdel" else db.lookup(qs, max_edits=kq, **mkw)
                 got = sorted(map(tuple, nc.norm_triplets(ret, mode)))
             except Exception as e:   # noqa: BLE001
-                ctx.violation(classify(doc["inp"], "raised"), f"{eng} db lookup raised {type(e).__name__}: {e} history={hist}",
+                ctx.violation((classify_fn or classify)(doc["inp"], "raised"), f"{eng} db lookup raised {type(e).__name__}: {e} history={hist}",
                               dict(kind="replay", doc=doc, letters=letters, api="LookupDB" if eng == "hash" else None))
                 continue
             want = sorted(map(tuple, doc["trip"]))
             ctx.case(dict(kind="db_history", engine=eng, ref=ref, k=kq, history=list(hist)), nontrivial=len(hist) > 1 and len(want) > 0)
             if nc._snapshot(db) != before:
-                ctx.violation(classify(doc["inp"], "db_mutated"), f"{eng} database changed by lookup({qs}); ref={ref}",
+                ctx.violation((classify_fn or classify)(doc["inp"], "db_mutated"), f"{eng} database changed by lookup({qs}); ref={ref}",
                               dict(kind="db_history", engine=eng, ref=ref, k=k, history=list(hist), letters=letters))
             if got != want:
                 gp, wp = {(a, b) for a, b, _ in got}, {(a, b) for a, b, _ in want}
                 clause = "missing_pair" if wp - gp else "spurious_pair" if gp - wp else "repeated" if len(got) != len(set(got)) else "wrong_distance"
                 if clause == "missing_pair" and all(a == b for a, b in wp - gp):
                     clause = "missing_pair_equal_positions"
-                ctx.violation(classify(doc["inp"], clause),
+                ctx.violation((classify_fn or classify)(doc["inp"], clause),
                               f"{eng} db(ref={ref}, k={k}) after history {hist}: got {got} want {want}"[:500],
                               dict(kind="db_history", engine=eng, ref=ref, k=k, history=list(hist), letters=letters, want=want))
         ctx.traces += 1
@@ -137,8 +154,12 @@ def run(ctx):
         inp = nc.make_inp(eng, "lev", k, ref, seqs2=qs[0])
         if r % 2 == 0:
             look = [nc.make_inp(eng, "lev", k, ref, seqs2=q)["seqs2"] for q in (qs[1], qs[0], qs[2])]
+            # the distance mode is an argument of every lookup: the first query list comes back under the other mode
+            mseq = (("lev", "lev", "lev", "lev"), ("hamming", "hamming", "lev", "hamming"), ("lev", "hamming", "lev", "hamming"))[(r // 2) % 3]
             if eng == "hash":       # the radius of LookupDB is per lookup: vary it, and repeat a query list under another radius
-                look = [(look[0], 1), (look[1], 2 if k == 1 else 1), (look[1], k), (look[2], 1)]
+                look = [(look[0], 1, mseq[0]), (look[1], 2 if k == 1 else 1, mseq[1]), (look[1], k, mseq[2]), (look[2], 1, mseq[3])]
+            else:
+                look = [(q, k, m) for q, m in zip(look, mseq)]
             s = nc.build_db_session(sid, inp, look)
         else:
             s = nc.build_session(sid, inp, api=None if eng == "hash" else ("nearest_neighbor", "symdel")[sid % 2])
@@ -180,9 +201,11 @@ def replay(doc):
         import pyrepseq.nn as nn
         db = nn.SymdelDB(r["ref"], r["k"]) if r["engine"] == "symdel" else nn.LookupDB(r["ref"])
         got = None
-        for qs, kq in r["history"]:
-            ret = db.lookup(qs) if r["engine"] == "symdel" else db.lookup(qs, max_edits=kq)
-            got = sorted(map(tuple, nc.norm_triplets(ret, "lev")))
+        for qs, kq, *m in r["history"]:
+            mode = m[0] if m else "lev"
+            mkw = lookup_kw(dict(mode=mode, cd=m[1] if len(m) > 1 else None, maxc=m[2] if len(m) > 2 else nc.INF))
+            ret = db.lookup(qs, **mkw) if r["engine"] == "symdel" else db.lookup(qs, max_edits=kq, **mkw)
+            got = sorted(map(tuple, nc.norm_triplets(ret, mode)))
         want = sorted(map(tuple, r.get("want", [])))
         print("got", got, "want", want)
         return 1 if got != want else 0
